@@ -304,7 +304,17 @@ func c17CheckLong(c c17Long) engine.Result {
 	for i := 0; i < c.K; i++ {
 		hist = append(hist, c.Cont)
 	}
+	// a second long unit on the same accumulator (restart by the next unit start), with the other
+	// 184-byte payload pattern so that recycled storage shows up in Packets()/Bytes()
+	hist = append(hist, 1)
+	for i := 0; i < c.K; i++ {
+		hist = append(hist, 2+(i+1)%2)
+	}
 	hist = append(hist, 1, 3, c.Cont, len(c17Alphabet), c.Start, c.Cont)
+	// and a third one after the Reset
+	for i := 0; i < c.K && i < 40; i++ {
+		hist = append(hist, 2+i%2)
+	}
 	for _, op := range hist {
 		c17Apply(s, op, &res)
 		res.Evals++
@@ -349,7 +359,7 @@ func init() {
 			},
 			&engine.Enum[c17Long]{
 				Name: "long-accumulations",
-				Rule: "for every predicate x start packet {PUSI+184A, PUSI+3} x continuation packet {184A, 184B, 3-byte, 1-byte} x K in 0..40 (thorough 0..400): start, K continuations, restart with another unit start, two continuations, Reset, start, continuation — every step judged by the list model (covers accumulated sizes up to 7.5 KiB / 74 KiB, beyond the BFS depth)",
+				Rule: "for every predicate x start packet {PUSI+184A, PUSI+3} x continuation packet {184A, 184B, 3-byte, 1-byte} x K in 0..40 (thorough 0..400): start, K continuations, a second unit of K continuations with alternating payloads, restart with another unit start, two continuations, Reset, start and up to 40 continuations — every step judged by the list model (covers accumulated sizes up to 7.5 KiB / 74 KiB, beyond the BFS depth)",
 				Gen: func(r *engine.Run, emit func(c17Long)) {
 					maxK := 40
 					if r.Thorough() {
